@@ -24,9 +24,20 @@ impl ToplevelInformationDefinition {
         &mut self,
         tlds: &BTreeMap<String, ToplevelDefinition>,
     ) -> Result<(), GrammarError> {
+        let mut visiting = vec![self.name.clone()];
+        self.collect_supertypes_visiting(tlds, &mut visiting)
+    }
+
+    /// `visiting` holds the names of the objects that are being resolved: an object that is
+    /// defined by reference to one of them is defined in terms of itself.
+    fn collect_supertypes_visiting(
+        &mut self,
+        tlds: &BTreeMap<String, ToplevelDefinition>,
+        visiting: &mut Vec<String>,
+    ) -> Result<(), GrammarError> {
         match (&mut self.value, &self.class) {
             (ASN1Information::Object(ref mut o), ClassLink::ByReference(class)) => {
-                match resolve_and_link(&mut o.fields, class, tlds)? {
+                match resolve_and_link(&mut o.fields, class, tlds, visiting)? {
                     Some(ToplevelInformationDefinition {
                         value: ASN1Information::Object(obj),
                         ..
@@ -64,6 +75,7 @@ fn resolve_and_link(
     fields: &mut InformationObjectFields,
     class: &ObjectClassDefn,
     tlds: &BTreeMap<String, ToplevelDefinition>,
+    visiting: &mut Vec<String>,
 ) -> Result<Option<ToplevelInformationDefinition>, GrammarError> {
     match resolve_custom_syntax(fields, class) {
         Ok(()) => link_object_fields(fields, class, tlds).map(|_| None),
@@ -76,8 +88,19 @@ fn resolve_and_link(
             if let InformationObjectFields::CustomSyntax(c) = &fields {
                 if let Some(id) = c.first().and_then(SyntaxApplication::as_str_or_none) {
                     if let Some(ToplevelDefinition::Object(tld)) = tlds.get(id) {
+                        if visiting.iter().any(|v| v == id) {
+                            return Err(GrammarError::new(
+                                &format!(
+                                    "The information object {id} is defined in terms of itself!"
+                                ),
+                                GrammarErrorType::LinkerError,
+                            ));
+                        }
+                        visiting.push(id.to_owned());
                         let mut tld_clone = tld.clone().resolve_class_reference(tlds);
-                        tld_clone.collect_supertypes(tlds)?;
+                        let linked = tld_clone.collect_supertypes_visiting(tlds, visiting);
+                        visiting.pop();
+                        linked?;
                         return Ok(Some(tld_clone));
                     }
                 }
